@@ -54,7 +54,7 @@ inductive UnKind
   deriving DecidableEq, Repr
 
 inductive BinKind
-  | letValue | letError | letDone | seq | fin | whenAll | stopWhen
+  | letValue | letError | letDone | seq | fin | whenAll | stopWhen | whenAny
   deriving DecidableEq, Repr
 
 inductive ConstKind
@@ -100,10 +100,11 @@ structure BinSt where
   doe : Bool               -- when_all: doneOrError_
   err : Option Nat         -- when_all: the stored first error
   src : Bool               -- when_all / stop_when: own stop source has been requested
+  val : Option Nat         -- when_any: the stored first value
   deriving DecidableEq, Repr
 
 def Env.dflt : Env := ⟨false, true, 0, 0⟩
-def BinSt.init : BinSt := ⟨.idle, false, Env.dflt, none, none, false, none, false⟩
+def BinSt.init : BinSt := ⟨.idle, false, Env.dflt, none, none, false, none, false, none⟩
 
 inductive Op
   | const (k : ConstKind) (ph : Phase)
@@ -191,10 +192,22 @@ def finResult (saved : Option Outcome) (ob : Outcome) : Outcome :=
 variable (specs : Nat → LeafSpec)
 
 /-- record a when_all element completion in the state (element_receiver::set_*) ; returns the new
-    state and whether this completion requests stop on the when_all's own source -/
-def waRecord (st : BinSt) (isA : Bool) (o : Outcome) : BinSt × Bool :=
-  let st1 := if isA then { st with ra := some o } else { st with rb := some o }
-  match o with
+    state and whether this completion requests stop on the when_all's own source.
+    `any = true` is when_any, which the library builds from when_all by wrapping every child in
+    `let_value(store_result)`: a child's value is stored (the first one wins) and the child then
+    completes with done, so for the underlying when_all EVERY first completion is a "failure" that
+    stops the others. -/
+def waRecord (any : Bool) (st : BinSt) (isA : Bool) (o : Outcome) : BinSt × Bool :=
+  let st0 : BinSt :=
+    match any, o with
+    | true, .value v => if st.val.isNone then { st with val := some v } else st
+    | _, _ => st
+  let o' : Outcome :=
+    match any, o with
+    | true, .value _ => .done
+    | _, x => x
+  let st1 := if isA then { st0 with ra := some o' } else { st0 with rb := some o' }
+  match o' with
   | .value _ => (st1, false)
   | .error e =>
     if st1.doe then (st1, false)
@@ -202,6 +215,16 @@ def waRecord (st : BinSt) (isA : Bool) (o : Outcome) : BinSt × Bool :=
   | .done =>
     if st1.doe then (st1, false)
     else ({ st1 with doe := true }, !st1.src)
+
+/-- when_any: `let_done` after the when_all turns done into the stored value, if there is one -/
+def anyResult (st : BinSt) (r : Outcome) : Outcome :=
+  match r with
+  | .done => (match st.val with | some v => .value v | none => .done)
+  | x => x
+
+def BinKind.isAny : BinKind → Bool
+  | .whenAny => true
+  | _ => false
 
 /-! ### One clause per algorithm.  Each `…Step` function is NOT recursive: it receives `rec`, the
      evaluator for the children (`deliver` at smaller fuel), so that each algorithm can be reasoned
@@ -249,19 +272,20 @@ def unStep (rec : Rec) (ev : Ev) (k : UnKind) (c : Op) (ph : Phase) (env : Env) 
   | .running, .complete i o => unWrap k env (rec (.complete i o) c)
   | _, _ => (.un k c ph env, [], none)
 
-/-- finish a when_all node if both children have reported -/
-def waFinish (a b : Op) (st : BinSt) (outs : List Out) : Res :=
+/-- finish a when_all / when_any node if both children have reported -/
+def waFinish (k : BinKind) (a b : Op) (st : BinSt) (outs : List Out) : Res :=
   if st.ra.isSome && st.rb.isSome then
-    (.bin .whenAll a b { st with ph := .finished }, outs, some (whenAllResult st.env.stopped st))
-  else (.bin .whenAll a b st, outs, none)
+    (.bin k a b { st with ph := .finished }, outs,
+      some (if k.isAny then anyResult st (whenAllResult st.env.stopped st) else whenAllResult st.env.stopped st))
+  else (.bin k a b st, outs, none)
 
 /-- apply `rec ev x` only if `cond`, else leave `x` alone -/
 def recIf (rec : Rec) (cond : Bool) (ev : Ev) (x : Op) : Res :=
   if cond then rec ev x else (x, [], none)
 
-def waRec (st : BinSt) (isA : Bool) (r : Option Outcome) : BinSt × Bool :=
+def waRec (any : Bool) (st : BinSt) (isA : Bool) (r : Option Outcome) : BinSt × Bool :=
   match r with
-  | some o => waRecord st isA o
+  | some o => waRecord any st isA o
   | none => (st, false)
 
 def markSrc (st : BinSt) (b : Bool) : BinSt := if b then { st with src := true } else st
@@ -269,57 +293,57 @@ def markSrc (st : BinSt) (b : Bool) : BinSt := if b then { st with src := true }
 /-- Child `isA` has just produced the signal `r` (its updated tree is already in place): record a
     completion (element_receiver::set_*) and, if it is the first failure, request stop on the
     when_all's own source, i.e. notify the sibling if that is still running. -/
-def waAfterChild (rec : Rec) (isA : Bool) (a b : Op) (st : BinSt) (r : Option Outcome) :
+def waAfterChild (rec : Rec) (any : Bool) (isA : Bool) (a b : Op) (st : BinSt) (r : Option Outcome) :
     Op × Op × BinSt × List Out :=
   match r with
   | none => (a, b, st, [])
   | some o =>
-    let p := waRecord st isA o
+    let p := waRecord any st isA o
     let st1 := markSrc p.1 p.2
     if isA then
       let rb := recIf rec (p.2 && st1.rb.isNone) .stop b
-      (a, rb.1, (waRec st1 false rb.2.2).1, rb.2.1)
+      (a, rb.1, (waRec any st1 false rb.2.2).1, rb.2.1)
     else
       let ra := recIf rec (p.2 && st1.ra.isNone) .stop a
-      (ra.1, b, (waRec st1 true ra.2.2).1, ra.2.1)
+      (ra.1, b, (waRec any st1 true ra.2.2).1, ra.2.1)
 
-def waStart (rec : Rec) (a b : Op) (st : BinSt) (env0 : Env) : Res :=
+def waStart (rec : Rec) (k : BinKind) (a b : Op) (st : BinSt) (env0 : Env) : Res :=
   -- stopCallback_ registered first: runs inline if stop was already requested
   let st0 : BinSt := { BinSt.init with ph := .running, env := env0, src := env0.stopped, second := st.second }
   let ra := rec (.start { env0 with stopped := st0.src, stoppable := true }) a
   -- b is not started yet: a failing a only marks the source as stopped
-  let p1 := waRec st0 true ra.2.2
+  let p1 := waRec k.isAny st0 true ra.2.2
   let st1 := markSrc p1.1 p1.2
   let rb := rec (.start { env0 with stopped := st1.src, stoppable := true }) b
   -- b's failure stops a (if a is still running and the source was not yet stopped)
-  let x := waAfterChild rec false ra.1 rb.1 st1 rb.2.2
-  waFinish x.1 x.2.1 x.2.2.1 (ra.2.1 ++ rb.2.1 ++ x.2.2.2)
+  let x := waAfterChild rec k.isAny false ra.1 rb.1 st1 rb.2.2
+  waFinish k x.1 x.2.1 x.2.2.1 (ra.2.1 ++ rb.2.1 ++ x.2.2.2)
 
-def waStop (rec : Rec) (a b : Op) (st : BinSt) : Res :=
+def waStop (rec : Rec) (k : BinKind) (a b : Op) (st : BinSt) : Res :=
   let st0 := { st with env := st.env.stop }
-  if st.src then (.bin .whenAll a b st0, [], none)
+  if st.src then (.bin k a b st0, [], none)
   else
     let st1 := { st0 with src := true }
     let ra := recIf rec st1.ra.isNone .stop a
-    let st2 := (waRec st1 true ra.2.2).1
+    let st2 := (waRec k.isAny st1 true ra.2.2).1
     let rb := recIf rec st2.rb.isNone .stop b
-    let st3 := (waRec st2 false rb.2.2).1
-    waFinish ra.1 rb.1 st3 (ra.2.1 ++ rb.2.1)
+    let st3 := (waRec k.isAny st2 false rb.2.2).1
+    waFinish k ra.1 rb.1 st3 (ra.2.1 ++ rb.2.1)
 
-def waComplete (rec : Rec) (a b : Op) (st : BinSt) (i : Nat) (o : Outcome) : Res :=
+def waComplete (rec : Rec) (k : BinKind) (a b : Op) (st : BinSt) (i : Nat) (o : Outcome) : Res :=
   -- the leaf lives in exactly one of the two subtrees; a finished/idle subtree ignores the event
   let ra := rec (.complete i o) a
-  let x := waAfterChild rec true ra.1 b st ra.2.2
+  let x := waAfterChild rec k.isAny true ra.1 b st ra.2.2
   let rb := recIf rec ra.2.2.isNone (.complete i o) x.2.1
-  let y := waAfterChild rec false x.1 rb.1 x.2.2.1 rb.2.2
-  waFinish y.1 y.2.1 y.2.2.1 (ra.2.1 ++ x.2.2.2 ++ rb.2.1 ++ y.2.2.2)
+  let y := waAfterChild rec k.isAny false x.1 rb.1 x.2.2.1 rb.2.2
+  waFinish k y.1 y.2.1 y.2.2.1 (ra.2.1 ++ x.2.2.2 ++ rb.2.1 ++ y.2.2.2)
 
-def waStep (rec : Rec) (ev : Ev) (a b : Op) (st : BinSt) : Res :=
+def waStep (rec : Rec) (ev : Ev) (k : BinKind) (a b : Op) (st : BinSt) : Res :=
   match st.ph, ev with
-  | .idle, .start env0 => waStart rec a b st env0
-  | .running, .stop => waStop rec a b st
-  | .running, .complete i o => waComplete rec a b st i o
-  | _, _ => (.bin .whenAll a b st, [], none)
+  | .idle, .start env0 => waStart rec k a b st env0
+  | .running, .stop => waStop rec k a b st
+  | .running, .complete i o => waComplete rec k a b st i o
+  | _, _ => (.bin k a b st, [], none)
 
 /-- stop_when: a = source, b = trigger; `ra` = source's result, `rb` = trigger completed -/
 def swFinish (a b : Op) (st : BinSt) (outs : List Out) : Res :=
@@ -439,7 +463,7 @@ def seqStep (rec : Rec) (ev : Ev) (k : BinKind) (a b : Op) (st : BinSt) : Res :=
 
 def binStep (rec : Rec) (ev : Ev) (k : BinKind) (a b : Op) (st : BinSt) : Res :=
   match k with
-  | .whenAll => waStep rec ev a b st
+  | .whenAll | .whenAny => waStep rec ev k a b st
   | .stopWhen => swStep rec ev a b st
   | _ => seqStep rec ev k a b st
 
